@@ -128,6 +128,31 @@ def prop(case):
             else:
                 ok = close(se, err, 1e-9)
             check(ok, "stats.standard_error", lambda: f"{lab}: {se} vs rmse*sqrt(cov_ii)={err}")
+    # a Result is a value: another optimisation run afterwards in the same process must not change it
+    if case.get("penalties") or case.get("relations"):
+        import copy
+
+        before = (copy.deepcopy(res.additional_penalty), res.chi_square, res.cost,
+                  {l: res.data[l].residual.values.copy() for l in res.data}, {l: res.data[l].clp.values.copy() for l in res.data})
+        other = copy.deepcopy(case)
+        for d in other["datasets"]:
+            d["data_seed"] += 7
+        with warnings.catch_warnings():
+            warnings.simplefilter("ignore")
+            try:
+                schemes.run_fit(other)
+            except Discard:
+                pass
+            except Exception:  # noqa: BLE001  (the second run is only there to disturb shared state)
+                pass
+        same_pen = len(before[0]) == len(res.additional_penalty) and all(
+            np.array_equal(np.asarray(a, dtype=float), np.asarray(b, dtype=float)) for a, b in zip(before[0], res.additional_penalty))
+        check(same_pen, "stats.earlier_result_changed_by_later_optimisation", lambda: f"additional_penalty {before[0]} -> {res.additional_penalty}")
+        check(res.chi_square == before[1] and res.cost == before[2], "stats.earlier_result_changed_by_later_optimisation", lambda: "chi_square / cost changed")
+        for l in res.data:
+            check(np.array_equal(res.data[l].residual.values, before[3][l]) and np.array_equal(res.data[l].clp.values, before[4][l], equal_nan=True),
+                  "stats.earlier_result_changed_by_later_optimisation", lambda: f"dataset {l} changed")
+        tags.append("persistence_checked")
     f = features(case)
     multi = len(case["datasets"]) >= 2
     linked = any(x.startswith("linked") for x in f)
